@@ -28,8 +28,8 @@ type IncDir struct {
 type C10Case struct {
 	N           int        `json:"n"`
 	Dirs        [][]IncDir `json:"dirs"`
-	DepthLimit  int        `json:"depth_limit"` // 0 = default
-	Oversized   int        `json:"oversized"`   // file index made larger than the size limit, -1 none
+	DepthLimit  int        `json:"depth_limit"`    // 0 = default
+	Oversized   int        `json:"oversized"`      // file index made larger than the size limit, -1 none
 	Warm        bool       `json:"warm,omitempty"` // the loader has resolved the same root under the default limits before the case's limits are set
 	FromContent bool       `json:"from_content"`
 }
